@@ -382,7 +382,14 @@ fn c13_case(r: &mut Rng, idx: u64, rep: &mut Reporter, cover: &mut crate::Cover)
                 let a = (r.range(-1000, 1000)) as f64 / 4.0;
                 RecordDataType::Double { min: Some(a), max: Some(a + (r.range(0, 4000)) as f64 / 4.0) }
             }
-            4 | 5 => gen_type(r, TypeClass::IntegerOnly, &k),
+            4 => gen_type(r, TypeClass::IntegerOnly, &k),
+            5 => match r.usize(5) {
+                0 => RecordDataType::Single { min: Some(0.0), max: None },
+                1 => RecordDataType::Single { min: None, max: Some(255.0) },
+                2 => RecordDataType::Double { min: Some(-5.5), max: None },
+                3 => RecordDataType::Double { min: None, max: Some(1e6) },
+                _ => gen_type(r, TypeClass::IntegerOnly, &k),
+            },
             6 => RecordDataType::U8,
             _ => {
                 let w = r.usize(65);
